@@ -39,11 +39,12 @@ def showRes : Except Err (List UInt8) → String
   | .ok bs => "ok:" ++ hexOrDash bs
   | .error .invalidData => "EXC:InvalidData"
   | .error .valueError => "EXC:PDFValueError"
-  | .error .typeError => "EXC:TypeError"
   | .error .unmodelled => "unmodelled"
 
 def optInt (s : String) : Option (Option Int) :=
   if s == "n" then some none else (fun i => some i) <$> s.toInt?
+
+def optBool (s : String) : Option Bool := if s == "n" then none else some (s == "1")
 
 def step (line : String) : String :=
   match words line with
@@ -53,19 +54,26 @@ def step (line : String) : String :=
     else if name == "BLACK" then serTrie blackTrie
     else if name == "UNCOMPRESSED" then serTrie uncTrie
     else "bad-op"
-  | ["rt", w, align, eofb, rev, rows, chs] =>
+  | ["rt", w, align, eofb, rev, omitDefaults, rows, chs] =>
     match w.toNat? with
     | some w =>
       let rows := parseRows rows
       let align := align == "1"
       let rev := rev == "1"
       let enc := Spec.T6.encodeImage w rows (parseChoices chs) align (eofb == "1")
-      let dec := ccittfaxdecode (some (-1)) (some (w : Int)) align rev enc
+      let om := omitDefaults == "1"
+      -- `omit`: keys holding the ISO 32000 default value are absent from the dictionary
+      let p : Params := { K := some (-1),
+                          columns := if om && w == 1728 then none else some (w : Int),
+                          encodedByteAlign := if om && !align then none else some align,
+                          blackIs1 := if om && !rev then none else some rev }
+      let dec := ccittfaxdecodeParams p enc
       hexOrDash enc ++ " " ++ showRes dec ++ " " ++ hexOrDash (Spec.T6.packImage rev rows)
     | none => "bad-op"
   | ["dec", k, cols, align, rev, hex] =>
     match optInt k, optInt cols, bytesOfHex hex with
-    | some k, some cols, some data => showRes (ccittfaxdecode k cols (align == "1") (rev == "1") data)
+    | some k, some cols, some data =>
+      showRes (ccittfaxdecodeParams ⟨k, cols, optBool align, optBool rev⟩ data)
     | _, _, _ => "bad-op"
   | _ => "bad-op"
 
